@@ -21,14 +21,50 @@ def readStr (enc : Res Bytes) (tail : Bytes) : String :=
     | none => "eof"
     | some (v, r) => s!"{v}:{r.length}"
 
+/-- the bytes between `len` and `cap` of the destination slice a `varint` case describes. -/
+def spareOf (dst : String) : Option Bytes :=
+  match dst.splitOn ":" with
+  | ["nil"] => some []
+  | ["exact"] => some []
+  | ["zero", k] => k.toNat?.map fun k => List.replicate k 0
+  | ["ff", k] => k.toNat?.map fun k => List.replicate k 255
+  | ["rnd", h] => unhex h
+  | ["scr", v, w] =>
+    match v.toNat?, w.toNat? with
+    | some v, some w =>
+      match vAppendWithLen v w with
+      | .ok e => some (e ++ List.replicate (24 - e.length) 0xa5)
+      | .panic => none
+    | _, _ => none
+  | _ => none
+
+/-- what was appended after the destination's visible bytes, if those are still in front. -/
+def stripPre (pre : Bytes) (res : String) : Option Bytes :=
+  match unhex res with
+  | some bs => if bs.take pre.length = pre ∧ pre.length ≤ bs.length then some (bs.drop pre.length) else none
+  | none => none
+
 def varint (c : Case) : Verdict :=
-  match c.input.nat "x", c.input.nat "w", c.input.bytes "tail" with
-  | some x, some w, some tail =>
-    let app := vAppend x
-    let wl := vAppendWithLen x w
-    let model := s!"append={resBytes app} len={resNat (vLen x)} withlen={resBytes wl} read={readStr app tail} readwl={readStr wl tail}"
+  let pre := (c.input.bytes "pre").getD []
+  let dst := c.input.getD "dst" "nil"
+  match c.input.nat "x", c.input.nat "w", c.input.bytes "tail", spareOf dst with
+  | some x, some w, some tail, some spare =>
+    -- the slice-level transcription, run on the very destination of the case
+    let s0 : Slice := ⟨pre, spare⟩
+    let app := viewOf (sAppend (fun _ => 0) s0 x)
+    let wl := viewOf (sAppendWithLen (fun _ => 0) s0 x w)
+    let encOf (r : Res Bytes) : Res Bytes := match r with
+      | .ok bs => .ok (bs.drop pre.length)
+      | .panic => .panic
+    let model := s!"append={resBytes app} len={resNat (vLen x)} withlen={resBytes wl} read={readStr (encOf app) tail} readwl={readStr (encOf wl) tail}"
     let impl := s!"append={c.output.getD "append" "?"} len={c.output.getD "len" "?"} withlen={c.output.getD "withlen" "?"} read={c.output.getD "read" "?"} readwl={c.output.getD "readwl" "?"}"
-    let tag := s!"len={resNat (vLen x)},w={if w = 1 ∨ w = 2 ∨ w = 4 ∨ w = 8 then "legal" else "illegal"},wl={if wl = .panic then "panic" else "ok"}"
+    let dstKind := (dst.splitOn ":").headD "?"
+    -- the class the destination dimension is about: a padded width written where stale bytes lie
+    let padded : Bool := match vLen x with
+      | .ok l => decide (wl ≠ .panic ∧ l + 1 < w)
+      | .panic => false
+    let stale : Bool := decide (w ≤ spare.length) && (spare.take w).any (· ≠ 0)
+    let tag := s!"len={resNat (vLen x)},w={if w = 1 ∨ w = 2 ∨ w = 4 ∨ w = 8 then "legal" else "illegal"},wl={if wl = .panic then "panic" else "ok"},dst={dstKind}{if padded && stale then ",stale-padding" else ""}"
     -- monitor on the implementation's own output: the property's clauses
     let implApp := c.output.getD "append" "?"
     let implRead := c.output.getD "read" "?"
@@ -37,17 +73,19 @@ def varint (c : Case) : Verdict :=
     let want := s!"{x}:{tail.length}"
     if x < 4611686018427387904 then
       if implApp = "panic" then .propFail tag "append-panics-below-2^62"
+      else if (stripPre pre implApp).isNone then .propFail tag "append-changed-the-destination's-bytes"
       else if implRead ≠ want then .propFail tag "read-append-roundtrip"
-      else if (unhex implApp).map (·.length) ≠ (match vLen x with | .ok l => some l | .panic => none) then
+      else if (stripPre pre implApp).map (·.length) ≠ (match vLen x with | .ok l => some l | .panic => none) then
         .propFail tag "append-width-is-minimal-Len"
-      else if implWl ≠ "panic" ∧ ((unhex implWl).map (·.length) ≠ some w ∨ implReadWl ≠ want) then
+      else if implWl ≠ "panic" ∧ (stripPre pre implWl).isNone then .propFail tag "withlen-changed-the-destination's-bytes"
+      else if implWl ≠ "panic" ∧ ((stripPre pre implWl).map (·.length) ≠ some w ∨ implReadWl ≠ want) then
         .propFail tag "withlen-width-and-roundtrip"
       else if model = impl then .ok tag else .diff tag model
     else
       if implApp ≠ "panic" then .propFail tag "too-big-not-refused"
       else if implWl ≠ "panic" then .propFail tag "too-big-withlen-not-refused"
       else if model = impl then .ok tag else .diff tag model
-  | _, _, _ => .bad "varint: bad input"
+  | _, _, _, _ => .bad "varint: bad input"
 
 def varintRead (c : Case) : Verdict :=
   match c.input.bytes "bytes" with
@@ -106,6 +144,14 @@ def parseRaw (s : String) : Option RawTP :=
 
 def isGreaseId (id : Nat) : Bool := id ≥ 27 && (id - 27) % 31 == 0
 
+/-- does every parameter report the id/value the typed model says (GREASE draws are inputs, checked for shape)? -/
+def eachOk (ps : List (TP ⊕ (Nat × Option Bytes × Nat))) (raws : List RawTP) : Bool :=
+  (ps.zip raws).all fun (p, r) => match p with
+    | .inl tp => tp.raw = .ok r
+    | .inr (id, v, len) =>
+      (if isGreaseId id then r.id = id else isGreaseId r.id && r.id < 4611686018427387904) &&
+      (match v with | some v => r.value = v | none => r.value.length = len)
+
 def tps (c : Case) : Verdict :=
   match (listOf (c.input.getD "tps" "-")).mapM parseTP with
   | none => .bad "tps: bad input"
@@ -127,13 +173,8 @@ def tps (c : Case) : Verdict :=
       match (listOf (c.output.getD "raw" "-")).mapM parseRaw, unhex implMarshal with
       | some raws, some bytes =>
         if raws.length ≠ ps.length then .diff tag "raw-count" else
-        -- (1) each parameter reports what the typed model says (GREASE draws are inputs, checked for shape)
-        let okEach := (ps.zip raws).all fun (p, r) => match p with
-          | .inl tp => tp.raw = .ok r
-          | .inr (id, v, len) =>
-            (if isGreaseId id then r.id = id else isGreaseId r.id && r.id < 4611686018427387904) &&
-            (match v with | some v => r.value = v | none => r.value.length = len)
-        if ¬ okEach then .diff tag "typed-parameter-id/value" else
+        -- (1) each parameter reports what the typed model says
+        if ¬ eachOk ps raws then .diff tag "typed-parameter-id/value" else
         -- (2) Marshal = model on the reported list; (3) monitor: the bytes parse back to the list
         if parseTPs bytes ≠ some raws then .propFail tag "marshal-parses-back-to-list"
         else if marshalTPs raws ≠ .ok bytes then .diff tag s!"marshal={resBytes (marshalTPs raws)}"
@@ -143,7 +184,62 @@ def tps (c : Case) : Verdict :=
           if ext = s!"ok:{hex (u16 57 ++ vec16 bytes)}" then .ok tag else .diff tag "ext-framing"
       | _, _ => .diff tag "marshal=ok"
 
+/-- one list of a `tps_seq` case: `none` = fine, otherwise the verdict. The monitor looks at what the
+caller still holds after all the other results were produced. -/
+def seqOne (c : Case) (tag : String) (i : Nat) : Option Verdict :=
+  match (listOf (c.input.getD s!"l{i}" "-")).mapM parseTP, (listOf (c.output.getD s!"raw{i}" "-")).mapM parseRaw with
+  | some ps, some raws =>
+    if raws.length ≠ ps.length then some (.diff tag s!"raw-count-{i}") else
+    if ¬ eachOk ps raws then some (.diff tag s!"typed-parameter-id/value-{i}") else
+    let now := c.output.getD s!"now{i}" "?"
+    let held := c.output.getD s!"held{i}" "?"
+    let model := marshalTPs raws
+    match held.splitOn ":" with
+    | ["m", h] =>
+      match unhex h, now.splitOn ":" with
+      | some hb, ["m", n] =>
+        -- the held slice must still be the body of list i …
+        if parseTPs hb ≠ some raws then some (.propFail tag s!"held-marshal-result-no-longer-parses-back-to-its-list") else
+        -- … as it was when Marshal returned it
+        if (unhex n).bind parseTPs ≠ some raws then some (.propFail tag "marshal-parses-back-to-list") else
+        if model ≠ .ok hb ∨ n ≠ h then some (.diff tag s!"held{i}={resBytes model}") else none
+      | _, _ => some (.diff tag s!"held{i}=m:{resBytes model}")
+    | ["x", e, h] =>
+      match unhex h with
+      | some xb =>
+        -- extension_type(57) length body: the body Read emits after Len() fixed it
+        let body := xb.drop 4
+        if e ≠ "ok" then some (.diff tag s!"ext-read-error-{i}") else
+        if parseTPs body ≠ some raws then some (.propFail tag "extension-body-no-longer-parses-back-to-its-list") else
+        if now ≠ s!"len:{4 + body.length}" then some (.propFail tag "extension-Len-differs-from-what-Read-wrote") else
+        if model ≠ .ok body ∨ xb ≠ u16 57 ++ vec16 body then some (.diff tag s!"ext-framing-{i}") else none
+      | none => some (.diff tag s!"held{i}=x:ok:…")
+    | _ => some (.diff tag s!"held{i}-missing")
+  | _, _ => some (.bad s!"tps_seq: bad list {i}")
+
+def tpsSeq (c : Case) : Verdict :=
+  match c.input.nat "k" with
+  | none => .bad "tps_seq: bad input"
+  | some k =>
+    let tag := s!"{c.input.getD "mode" "?"},k={k}"
+    match (List.range k).findSome? (seqOne c tag) with
+    | some v => v
+    | none =>
+      -- all-Marshal sequences are also run through the heap model (one memory, results read at the
+      -- end, in the order the calls were made)
+      if c.input.getD "mode" "?" ≠ "marshal" then .ok tag else
+      let order := (listOf (c.input.getD "make" "-")).filterMap String.toNat?
+      match order.mapM (fun i => (listOf (c.output.getD s!"raw{i}" "-")).mapM parseRaw) with
+      | none => .bad "tps_seq: bad raw lists"
+      | some lists =>
+        match hMarshalSeq (fun n => n) [] lists with
+        | .panic => .diff tag "heap-model=panic"
+        | .ok (hN, rs) =>
+          let views := rs.map fun r => "m:" ++ hex (hView hN r)
+          let helds := order.map fun i => c.output.getD s!"held{i}" "?"
+          if views = helds then .ok tag else .diff tag s!"heap-model={",".intercalate views}"
+
 /-- families served by this module (collected by the generated `DrvAll`). -/
-def families : List (String × (Case → Verdict)) := [("varint", varint), ("varint_read", varintRead), ("tps", tps)]
+def families : List (String × (Case → Verdict)) := [("varint", varint), ("varint_read", varintRead), ("tps", tps), ("tps_seq", tpsSeq)]
 
 end Drv.C24
